@@ -105,6 +105,7 @@ const (
 	FHookFail   = "hook_fail"   // listener Listener fails on its N-th call of Method
 	FJoinExport = "join_export" // a new replica is started from this node's exported genesis after this block
 	FQuery      = "query_noise" // gRPC queries between FinalizeBlock and Commit must see pre-block state
+	FDiscarded  = "discarded_ops"  // keeper ops on a discarded branch + Simulate of txs: executed-but-rolled-back work must leave no trace
 	FCheckTx    = "checktx_noise" // CheckTx traffic before the block must not influence FinalizeBlock
 )
 
